@@ -165,8 +165,8 @@ def main(argv):
             kid, loops = loops_from_op(op)
             cases.append(Case(kid, loops, vals or pick_values(ck.rng, loops, 12)))
     else:
-        n = 70 if ck.tier == "quick" else 420
-        nv = 10 if ck.tier == "quick" else 14
+        n = 56 if ck.tier == "quick" else 420
+        nv = 9 if ck.tier == "quick" else 14
         cases = corpus_cases()
         for k, plan in enumerate(plans(ck.rng, n)):
             loops = gen_case(ck.rng, k + 1, plan)
